@@ -381,6 +381,21 @@ def rule_r6(ctx, rep):
             rep.add("R6", fi.qname, c, f"`{var}` is validated on its own before prune has descended into it on some path: what is pruned below "
                     f"`{var}` afterwards can make it non-compliant, so strict mode leaves nodes that fail single-node validation "
                     f"(and a second prune removes more)", fi.loc(c))
+    # ... and by nothing but the strict flag and the child still being there: every remaining child is judged
+    from ..condeval import enclosing_ifs
+    strictp = fi.params[1] if len(fi.params) > 1 else None
+    for (c, var) in val:
+        stmt = c
+        for (g, _side) in enclosing_ifs(fi, c):
+            if not any(any(x is g for x in ast.walk(lp)) for lp in ast.walk(fi.node) if isinstance(lp, ast.For)):
+                continue  # guards outside the child loop (metadata test, handlers) are about n, not about the child
+            names_ = {x.id for x in ast.walk(g.test) if isinstance(x, ast.Name)}
+            foreign = sorted(names_ - {strictp, var, nparam, "len", "isinstance", "None", "True", "False"})
+            rep.oblige(("R6", "guard", norm(g.test)[:50]), not foreign)
+            if foreign:
+                rep.add("R6", fi.qname, g.test, f"whether `{var}` is validated in strict mode depends on `{', '.join(foreign)}`: a child that is "
+                        f"non-compliant on its own account (nothing pruned below it) is kept, although strict mode promises that every "
+                        f"remaining node passes single-node validation", fi.loc(g))
     rep.floor("strict validations of a loop child", 1)
 
 
